@@ -34,7 +34,7 @@ class Unit:
                  entry=None, loops=None, kind="P", tier="quick", timeout=300,
                  unwind=None, unwindset=(), flags=(), defines=(), leak=False,
                  reach=0, note="", bound="", assumed=(), solver=None, extra_src=(),
-                 nochecks=False, rec=False, objbits=12):
+                 nochecks=False, rec=False, objbits=10, shards=1):
         self.name = name
         # props: {property_id: regex over obligation names that count for it}
         self.props = props if isinstance(props, dict) else {p: ".*" for p in props}
@@ -61,6 +61,7 @@ class Unit:
         self.nochecks = nochecks
         self.rec = rec
         self.objbits = objbits
+        self.shards = shards
 
 
 def load_units():
@@ -84,8 +85,17 @@ def sha256(path):
     return h.hexdigest()
 
 
+import threading
+_SEM = threading.BoundedSemaphore(NCPU)
+
+
 def run(cmd, timeout, log, mem_kb=MEM_KB):
     """run cmd (list) with ulimit -v and timeout; return (rc, stdout, stderr, secs, timed_out)"""
+    with _SEM:
+        return _run(cmd, timeout, log, mem_kb)
+
+
+def _run(cmd, timeout, log, mem_kb=MEM_KB):
     t0 = time.time()
 
     def pre():
@@ -182,17 +192,29 @@ def run_unit(u, scratch, want_trace=True):
         r["spliced_loops"] = n
     gb = os.path.join(d, "u.gb")
     gbi = os.path.join(d, "u.i.gb")
+    # further /repo files needed by the unit are separate translation units:
+    # a generated two-line wrapper (common.h for the alloca budget + the file)
+    extra_tus = []
+    for x in u.extra_src:
+        xp = os.path.join(REPO, x)
+        if not os.path.exists(xp):
+            r["reason"] = "extraction break: %s missing" % x
+            return r
+        w = os.path.join(d, "x_" + os.path.basename(x))
+        with open(w, "w") as f:
+            f.write('#include "common.h"\n#include "%s"\n' % xp)
+        extra_tus.append(w)
     defs = ["-D" + GUARD, '-DVERIF_SRC="%s"' % inc_src, '-DVERIF_REPO_LIB="%s/lib"' % REPO]
     defs += ["-D" + x for x in u.defines]
     cmd = ["goto-cc", "-I" + os.path.join(REPO, "include"), "-I" + os.path.join(REPO, "lib"),
            "-I" + os.path.join(VERIF, "contracts"), "-I" + os.path.join(VERIF, "harness")] + defs + \
-          ["--function", u.entry, os.path.join(VERIF, "harness", u.harness), "-o", gb]
+          ["--function", u.entry, os.path.join(VERIF, "harness", u.harness)] + extra_tus + ["-o", gb]
     rc, out, err, dt, to = run(cmd, 300, log)
     if rc != 0 or to:
         r["reason"] = "compile error (goto-cc): " + (err.strip().splitlines()[-1] if err.strip() else "timeout")
         r["detail"] = err[-3000:]
         return r
-    cmd = ["goto-instrument", "--dfcc", u.entry]
+    cmd = ["goto-instrument", "--no-malloc-may-fail", "--dfcc", u.entry]
     if u.enforce:
         cmd += ["--enforce-contract-rec" if u.rec else "--enforce-contract", u.enforce]
     for g in u.replace:
@@ -215,7 +237,7 @@ def run_unit(u, scratch, want_trace=True):
         flags += ["--unwindset", ",".join(u.unwindset)]
     if u.unwind is not None or u.unwindset:
         flags.append("--unwinding-assertions")
-    flags += ["--object-bits", str(u.objbits)]
+    flags += ["--object-bits", str(u.objbits), "--no-malloc-may-fail"]
     flags += u.flags
     if u.solver:
         flags.append(u.solver)
@@ -224,7 +246,18 @@ def run_unit(u, scratch, want_trace=True):
                                 (["--enforce-contract", u.enforce] if u.enforce else []) +
                                 ["--replace-call-with-contract " + g for g in u.replace] +
                                 (["--apply-loop-contracts"] if u.loops else []) + ["&& cbmc"] + flags)
-    rc, out, err, dt, to = run(cbmc, u.timeout, log)
+    if u.shards > 1:
+        rc, out, err, dt, to = run_sharded(u, cbmc, flags, gbi, d, log)
+    else:
+        rc, out, err, dt, to = run(cbmc, u.timeout, log)
+    while u.shards <= 1 and (not to) and "too many addressed objects" in out and u.objbits < 14:
+        # the object-id width is a pure capacity parameter: escalate and retry
+        i = cbmc.index("--object-bits")
+        u.objbits += 1
+        cbmc[i + 1] = str(u.objbits)
+        flags[flags.index("--object-bits") + 1] = str(u.objbits)
+        rc, out, err, dt, to = run(cbmc, u.timeout, log)
+    r["object_bits"] = u.objbits
     r["cbmc_s"] = round(dt, 2)
     with open(os.path.join(d, "cbmc.out"), "w") as f:
         f.write(out)
@@ -272,8 +305,15 @@ def run_unit(u, scratch, want_trace=True):
     r["loop_step_obligations"] = loopstep
     r["samples"] = [{"obligation": x.get("property"), "description": x.get("description", "")[:100],
                      "status": x.get("status")} for x in results[:3]]
+    unknown = [fo for fo in failed if fo["status"] != "FAILURE"]
+    if unknown:
+        failed = [fo for fo in failed if fo["status"] == "FAILURE"]
+        r["failed"] = failed
+        r["undecided_obligations"] = [fo["obligation"] for fo in unknown]
     if r["reason"].startswith("vacuity guard"):
         pass
+    elif unknown and not failed:
+        r["reason"] = "%d obligation(s) undecided (timeout): %s" % (len(unknown), " ".join(fo["obligation"] for fo in unknown[:400]))
     elif nob == 0:
         r["reason"] = "vacuity guard: zero obligations"
     elif reach_hit < u.reach:
@@ -295,6 +335,63 @@ def run_unit(u, scratch, want_trace=True):
         r["verdict"] = "PROVED"
     r["wall_s"] = round(time.time() - t0, 2)
     return r
+
+
+def run_sharded(u, cbmc, flags, gbi, d, log):
+    """Split the unit's obligations round-robin over u.shards cbmc processes
+    (same program, same flags, disjoint --property sets) and merge the
+    results.  Every obligation is still decided exactly once."""
+    t0 = time.time()
+    while True:
+        rc, out, err, dt, to = run(["cbmc", gbi] + flags + ["--show-properties"], 300, log)
+        if "too many addressed objects" in out and u.objbits < 14:
+            u.objbits += 1
+            flags[flags.index("--object-bits") + 1] = str(u.objbits)
+            continue
+        break
+    names = re.findall(r"^Property ([^\s:]+):", out, re.M)
+    if not names:
+        return rc, out, err, dt, to
+    groups = [names[i::u.shards] for i in range(u.shards)]
+    groups = [g for g in groups if g]
+
+    def one(g):
+        c = ["cbmc", gbi] + flags + ["--verbosity", "8"]
+        for n in g:
+            c += ["--property", n]
+        r = run(c, u.timeout, log)
+        if "too many addressed objects" in r[1]:
+            return (r[0], "VERIFICATION ERROR object-bits", r[2], r[3], False)
+        return r
+    with ThreadPoolExecutor(max_workers=len(groups)) as ex:
+        rs = list(ex.map(one, groups))
+    to = False
+    merged, status, seen = [], "success", False
+    for r in rs:
+        txt = r[1]
+        i = txt.find("** Results:")
+        head = txt[:i] if i >= 0 else txt
+        merged.append(head)
+    merged.append("** Results:")
+    for r, g in zip(rs, groups):
+        txt = r[1]
+        i = txt.find("** Results:")
+        if r[4] or i < 0:
+            # shard did not finish: its obligations are undecided (UNKNOWN)
+            merged.append("\nshard function undecided\n" + "\n".join("[%s] %s: UNKNOWN" % (n, "timeout" if r[4] else "error") for n in g))
+            seen = True
+            continue
+        if i >= 0:
+            body = txt[i + len("** Results:"):]
+            body = re.sub(r"\n\*\* \d+ of \d+ failed.*", "", body, flags=re.S)
+            merged.append(body)
+        if "VERIFICATION FAILED" in txt:
+            status = "failure"
+        elif "VERIFICATION SUCCESSFUL" not in txt:
+            status = None if status != "failure" else status
+            seen = True
+    tail = "VERIFICATION FAILED" if status == "failure" else "VERIFICATION SUCCESSFUL"
+    return (0, "\n".join(merged) + "\n" + tail + "\n", "", time.time() - t0, to)
 
 
 # ---------------------------------------------------------------- findings
